@@ -81,7 +81,9 @@ def _assignment(draw, spec):
     on_edges = bool(edges) and draw(st.booleans())
     if on_edges:
         t = draw(st.sampled_from(sorted({e["type"] for e in edges})))
-        key = draw(st.sampled_from([k for k in RANGE if k.startswith(t + "_")]))
+        keys_t = [k for k in RANGE if k.startswith(t + "_")]
+        state_keys = [k for k in keys_t if k in ("IonotropicSynapse_s", "TestSynapse_c")]
+        key = draw(st.sampled_from(state_keys if state_keys and draw(st.integers(0, 2)) == 0 else keys_t))
         ids = [i for i, e in enumerate(edges) if e["type"] == t]
         view = draw(st.sampled_from(["type", "edge", "select_edges", "select_edges"]))
         if view == "type":
@@ -131,7 +133,17 @@ def _spec(draw, tier):
     N = gm.n_compartments(morph["cells"])
     morph["v"] = [draw(fl(-75.0, -55.0)) for _ in range(N)]
     hh_rows = list(range(N)) if draw(st.booleans()) else sorted(draw(st.sets(st.integers(0, N - 1), max_size=N)))
-    edges = draw(gn.edge_list(N, max_edges=5, min_edges=0, types=SYN)) if kind == "network" and N >= 2 else []
+    edges = draw(gn.edge_list(N, max_edges=5, min_edges=draw(st.sampled_from([0, 0, 3])), types=SYN)) if kind == "network" and N >= 2 else []
+    if len(edges) >= 3 and draw(st.booleans()):
+        # "sandwich": an edge of another type between two edges of one type, so that the rank of a synapse within its
+        # type differs from its offset to the first edge of the type (per-type arrays are indexed by rank)
+        for ta in SYN:
+            a_ids = [i for i, e in enumerate(edges) if e["type"] == ta]
+            b_ids = [i for i, e in enumerate(edges) if e["type"] != ta]
+            if len(a_ids) >= 2 and b_ids:
+                front = [a_ids[0], b_ids[0], a_ids[1]]
+                edges = [edges[i] for i in front] + [e for i, e in enumerate(edges) if i not in front]
+                break
     spec = {"morph": morph, "hh_rows": hh_rows, "edges": edges}
     spec["assignments"] = [draw(_assignment(spec)) for _ in range(draw(st.integers(1, 4)))]
     spec["simulate"] = draw(st.integers(0, 2)) == 0
